@@ -1266,6 +1266,18 @@ let run_autoderef (x : sexp) : string =
              (ad_show_vt dt) (match co with None -> "none" | Some c -> ad_show_vt c) argco)
   | _ -> failwith "autoderef"
 
+(* stream `assignsteps`, payload (as BASE (steps STEP ..) AD (members (N ty) ..)): typer.rs analyze_assignment_steps *)
+let run_assignsteps (x : sexp) : string =
+  match x with
+  | L [A "as"; base; L (A "steps" :: steps); A ad; L (A "members" :: ms)] ->
+      let members = List.map (function L [A n; t] -> (n_of_string n, ad_vt t) | _ -> failwith "assignsteps: member") ms in
+      let mt (m : coq_N) = try Some (List.assoc m members) with Not_found -> None in
+      let steps = List.map (function A "e" -> AD.AElement None | L [A "m"; A n] -> AD.AMember (n_of_string n) | _ -> failwith "assignsteps: step") steps in
+      (match AssignSteps.assignment_steps mt (ad_vt base) steps (n_of_string ad) with
+       | AssignSteps.APanic s -> "panic " ^ string_of_n s
+       | AssignSteps.AOk (taken, rd) -> Printf.sprintf "ok steps=[%s] addr=%s" (String.concat " " (List.map ad_show_tstep taken)) (string_of_n rd))
+  | _ -> failwith "assignsteps"
+
 (* ==== C08 CallFrame: one activation on memory ====================================================
    payload (frame (bindings B ..) (inits I ..) (body S ..) (probe (LO HI) ..) FORCE)
      B ::= (value PTY Z) | (view A PTY) | (slice A N PTY) | (pointer A PTY) | (slicepointer A N PTY) | (local A PTY) | (const A PTY)
@@ -1333,6 +1345,7 @@ let dispatch (stream : string) (x : sexp) : string =
   | "llpath" -> run_llpath x
   | "vtpred" -> run_vtpred x
   | "autoderef" -> run_autoderef x
+  | "assignsteps" -> run_assignsteps x
   | "callframe" -> run_callframe x
   | "loc" -> run_loc x
   | "memlower" -> run_memlower x
